@@ -168,3 +168,96 @@ Example C19_tokens_refuted_run :
   run_C19 c = [0]%Z /\ spec_C19 c (run_C19 c) = false /\ known_C19 c = [2]%Z.
 Proof. exact tokens_refuted. Qed.
 Print Assumptions C19_tokens_refuted_run.
+
+(* ================================================================ C19 x C08: one connection, from the
+   handshake to every answer (model/ConnSystem.v, proofs/ConnSystemP.v).  The initial state of the
+   serving machine of Outbound.v (key bound?, which key, ready flag, empty allowed set) is a FUNCTION
+   of the handshake outcome (serving_init / serving_key: the EBind / ENotReady effects), and the events
+   that follow never bind a key (cev has no OBind). *)
+From DV Require Import ConnSystem ConnSystemP.
+
+(* (6) every item of room data in every answer of the connection (rooms listed, room definition, room
+   node, logs, deletion records, member list, rows, references — Run_C08.item_rooms) was sent only if
+   (a) the remote signed THIS connection's challenge with the key K it presents, its peer row is valid
+   and K is the key expected for the token (entitled = Some K, the oracle of C19), and (b) the item
+   belongs to a room R of which K is a member at that moment by the accepted history of R (RightsSpec,
+   through Run_C08.member_now) — for every behaviour of the remote side and every sequence of requests,
+   ready toggles, definition entries and definition events, outside the two open classes of C08,
+   delimited by Run_C08.known_C08 itself on the connection seen as a C08 case *)
+Theorem C19_served_only_to_proven_members_outside_known : forall empty c,
+  wf_case (c08_of empty c) = true -> known_C08 (c08_of empty c) = [] ->
+  forall n now q a ro,
+    nth_error (c_events c) n = Some (CQuery now q) /\
+    nth_error (conn_answers empty c) n = Some a /\
+    In ro (item_rooms (c_inst c) q (snd a)) ->
+    exists K ans R,
+      c_remote c = Ans ans /\ a_key ans = K /\ proof_ok (c_ch c) ans = true /\ peer_row_ok ans = true /\
+      entitled (c_ch c) (c_tt c) (c_remote c) = Some K /\
+      ro = Some R /\ member_now (defs_before (i_defs (c_inst c)) (c_events c) n) R K now = true.
+Proof. exact served_only_to_proven_members. Qed.
+Print Assumptions C19_served_only_to_proven_members_outside_known.
+
+(* the connection's answers ARE what the C08 harness evaluates on that case, after the silent prefix
+   that replays the handshake's effects (commutation of the link) *)
+Theorem C19_conn_is_c08_case : forall empty c,
+  run_answers (c08_of empty c) = map (fun _ => (0%Z, [])) (hs_oevs (hs_outcome c)) ++ conn_answers empty c.
+Proof. exact run_answers_c08_of. Qed.
+Print Assumptions C19_conn_is_c08_case.
+
+(* (7) a connection whose handshake failed (the remote is not entitled: wrong key, answer recorded on
+   another connection, malformed or foreign peer row, silence, a valid key the token does not expect):
+   no effect, no success, and NO answer carries any item, for every sequence of requests and events.
+   Full strength: no exclusion, no well-formedness hypothesis. *)
+Theorem C19_failed_handshake_served_nothing_holds : forall empty c,
+  entitled (c_ch c) (c_tt c) (c_remote c) = None ->
+  snd (hs_outcome c) = [] /\ fst (hs_outcome c) <> ROkTrue /\
+  forall a, In a (conn_answers empty c) -> snd a = [].
+Proof. exact failed_handshake_served_nothing. Qed.
+Print Assumptions C19_failed_handshake_served_nothing_holds.
+
+(* (7') in a session over a repetition-free nonce stream, a connection on which the remote replays the
+   answer recorded on another connection is served nothing *)
+Theorem C19_replayed_answer_served_nothing_holds : forall empty nonces all i j sc n i0 evs,
+  NoDup nonces -> nth_error nonces i = Some n -> sc_remote sc = SReplay j -> j <> i ->
+  let c := {| c_ch := n; c_local := sc_local sc; c_tt := sc_tt sc; c_remote := sremote_of nonces all i sc;
+              c_ev := sc_ev sc; c_inst := i0; c_events := evs |} in
+  forall a, In a (conn_answers empty c) -> snd a = [].
+Proof. exact replayed_answer_served_nothing. Qed.
+Print Assumptions C19_replayed_answer_served_nothing_holds.
+
+(* (8) "served => initialise_connection RETURNED Ok(true)" holds exactly when the event channel of the
+   connection accepts messages ... *)
+Theorem C19_served_implies_accepted_outside_known : forall empty c,
+  c_ev c = true ->
+  wf_case (c08_of empty c) = true -> known_C08 (c08_of empty c) = [] ->
+  forall n now q a ro,
+    nth_error (c_events c) n = Some (CQuery now q) /\
+    nth_error (conn_answers empty c) n = Some a /\
+    In ro (item_rooms (c_inst c) q (snd a)) ->
+    fst (hs_outcome c) = ROkTrue.
+Proof. exact served_implies_accepted. Qed.
+Print Assumptions C19_served_implies_accepted_outside_known.
+
+(* ... and is refuted without it: the proof succeeds, the key is stored, Ready cannot be sent, the
+   function returns Ok(false) — and until the disconnect takes effect the (proven, entitled) key is
+   served its rooms *)
+Theorem C19_served_implies_accepted_refuted :
+  fst (hs_outcome cs_bound_not_accepted) = ROkFalse /\
+  wf_case (c08_of 0 cs_bound_not_accepted) = true /\ known_C08 (c08_of 0 cs_bound_not_accepted) = [] /\
+  conn_answers 0 cs_bound_not_accepted = [(2%Z, [1]); (2%Z, [1]); (2%Z, [1]); (1%Z, []); (1%Z, [])] /\
+  entitled (c_ch cs_bound_not_accepted) (c_tt cs_bound_not_accepted) (c_remote cs_bound_not_accepted) = Some 2.
+Proof. exact served_without_accept_refuted. Qed.
+Print Assumptions C19_served_implies_accepted_refuted.
+
+(* non-vacuity: an honest handshake, RoomList, requests for room 1 (key 2 is a member: served) and for
+   room 2 (it is not: refused); then the recorded answer replayed on the next connection of the session
+   followed by the same requests: nothing *)
+Example C19_conn_system_nonvacuous :
+  hs_outcome cs_ok = (ROkTrue, [EBind 2; EvReady; MConnected 2]) /\
+  wf_case (c08_of 0 cs_ok) = true /\ known_C08 (c08_of 0 cs_ok) = [] /\
+  conn_answers 0 cs_ok = [(2%Z, [1]); (2%Z, [1]); (2%Z, [1]); (1%Z, []); (1%Z, [])] /\
+  entitled (c_ch cs_replayed) (c_tt cs_replayed) (c_remote cs_replayed) = None /\
+  hs_outcome cs_replayed = (RErr, []) /\
+  conn_answers 0 cs_replayed = [(0%Z, []); (1%Z, []); (1%Z, []); (1%Z, []); (1%Z, [])].
+Proof. exact conn_system_nonvacuous. Qed.
+Print Assumptions C19_conn_system_nonvacuous.
